@@ -129,6 +129,9 @@ def tasks(tier, seed):
     T.append(('verlet', 2, 'LOBATTO'))
     T.append(('verlet', 3, 'LOBATTO'))
     T.append(('verlet', 3, 'RADAU-RIGHT'))
+    T.append(('verlet', 3, 'LOBATTO', 'EQUID'))  # other node families (the second-order matrix is Q Q there)
+    T.append(('verlet', 3, 'LOBATTO', 'CHEBY-1'))
+    T.append(('verlet', 2, 'RADAU-RIGHT', 'CHEBY-2'))
     T.append(('rkn',))
     T.append(('boris', 2, 'LOBATTO'))
     T.append(('boris', 3, 'LOBATTO'))
@@ -168,7 +171,7 @@ def run_task(rep, task):
     elif task[0] in ('verlet', 'boris'):
         from harness.c02_rk import verlet_case
 
-        verlet_case(rep, task[1], task[2], kind=task[0])
+        verlet_case(rep, task[1], task[2], kind=task[0], nt=(task[3] if len(task) > 3 else 'LEGENDRE'))
     elif task[0] == 'diag':
         from harness.c02_rk import diag_case
 
